@@ -84,7 +84,45 @@ def apply_unary(op, params, x):
     raise Unsupported("unary " + op)
 
 
-def apply_binary(op, params, a, b):
+_EXACT_UN = {"neg", "abs", "pos", "sum", "amax", "amin", "reshape", "getslice", "astype", "all", "any", "argmax", "argmin", "invert"}
+_EXACT_BIN = {"add", "sub", "mul", "max", "min", "getitem", "eq", "ne", "lt", "le", "gt", "ge", "and_", "or_", "xor"}
+_EXACT_RED = {"add", "mul", "max", "min", "and_", "or_"}
+_exact_cache = {}
+
+
+def is_exact_ir(ir):
+    """True iff the expression is computed without rounding on dyadic grid data (sums, products, maxima, indexing, comparisons only): only
+    then is an exact tie between two real values meaningful; a value that went through exp / division / log ... may hit a grid value
+    by rounding luck, and a comparison at such a tie is ill-conditioned"""
+    if not isinstance(ir, tuple) or not ir or not isinstance(ir[0], str):
+        if isinstance(ir, tuple):
+            return all(is_exact_ir(c) for c in ir)
+        return True
+    key = id(ir)
+    if key in _exact_cache and _exact_cache[key][0] is ir:
+        return _exact_cache[key][1]
+    k = ir[0]
+    if k == "un":
+        ok = ir[1] in _EXACT_UN and is_exact_ir(ir[3])
+    elif k == "bin":
+        ok = ir[1] in _EXACT_BIN and is_exact_ir(ir[3]) and is_exact_ir(ir[4])
+    elif k == "red":
+        ok = ir[1] in _EXACT_RED and is_exact_ir(ir[2])
+    elif k in ("ten", "num", "var", "slice"):
+        ok = True
+    elif k in ("sub", "stack", "cat", "lam", "align", "indep", "tuple"):
+        ok = all(is_exact_ir(c) for c in ir[1:])
+    elif k == "contr":
+        ok = ir[1] in _EXACT_RED | {"null"} and ir[2] in _EXACT_BIN | {"null"} and all(is_exact_ir(t) for t in ir[4])
+    else:
+        ok = False
+    if len(_exact_cache) > 50000:
+        _exact_cache.clear()
+    _exact_cache[key] = (ir, ok)
+    return ok
+
+
+def apply_binary(op, params, a, b, exact=True):
     a, b = np.asarray(a), np.asarray(b)
     with np.errstate(all="ignore"):
         if op == "getitem":
@@ -101,7 +139,7 @@ def apply_binary(op, params, a, b):
                 af = a.astype(F)
                 nice = np.all(af * 64 == np.round(af * 64)) and np.all(b.astype(F) * 64 == np.round(b.astype(F) * 64))
                 tie = d <= 1e-9 * (1 + np.abs(af))
-                if np.any(tie & (d > 0)) or (np.any(tie) and not nice):
+                if np.any(tie & (d > 0)) or (np.any(tie) and not (nice and exact)):
                     raise IllConditioned("comparison of (almost) equal reals that are not exactly representable")
             return BIN[op](a, b).astype(np.int64)  # a bounded integer in {0, 1}, not a numpy boolean (True + True must be 2)
         if op in BIN:
@@ -184,7 +222,10 @@ def ref_eval(ir, env):
     if k == "un":
         return apply_unary(ir[1], ir[2], ref_eval(ir[3], env))
     if k == "bin":
-        return apply_binary(ir[1], ir[2], ref_eval(ir[3], env), ref_eval(ir[4], env))
+        exact = True
+        if ir[1] in ("eq", "ne", "lt", "le", "gt", "ge"):
+            exact = is_exact_ir(ir[3]) and is_exact_ir(ir[4])
+        return apply_binary(ir[1], ir[2], ref_eval(ir[3], env), ref_eval(ir[4], env), exact=exact)
     if k == "red":
         _, op, e, vs = ir
         vs = sorted(vs)
